@@ -26,6 +26,11 @@ fn lengths(t: Tier) -> Vec<usize> {
             v.extend(100..=140);
         }
     }
+    // lengths at which (48- or 96-byte point || payload) and (32-byte seed || payload) cross 256 bytes
+    match t {
+        Tier::Quick => v.extend([159usize, 160, 176, 191, 207, 208, 223, 224, 225]),
+        Tier::Thorough => v.extend(150..=230),
+    }
     v.extend([16383, 16384, 16385, 65535, 65536]);
     v.sort_unstable();
     v.dedup();
